@@ -217,8 +217,9 @@ M("C17", "c17_response_step", ["saito_core::core::consensus::peers::peer::Peer::
 # ============================================================================== C18
 PROPERTY_ASSUMPTIONS["C18"] = [
     "engine M over the per-transaction projection step of Block::generate_lite_block (the closure mapped over the block's transactions); slice::contains is membership, slice::binary_search is specified only for sorted slices (arbitrary otherwise)",
-    "the merging of adjacent placeholders, the recomputability of the merkle root from placeholders, the header copy and the wire round trip are outside this revision's claim",
+    "the merging of adjacent placeholders, the recomputability of the merkle root from placeholders and the wire round trip are outside this revision's claim; the header copy is claimed for blocks without in-memory transactions",
 ]
+M("C18", "c18_lite_header_copy", ["Block::generate_lite_block", "Block::generate_merkle_root", "Block::new"], "a block without in-memory transactions (pruned / header-only), every header field symbolic; 32 fields compared", covers=1)
 M("C18", "c18_lite_tx_projection", ["saito_core::core::consensus::block::Block::generate_lite_block::{closure#0} and its two nested closures"],
   "transactions with 0..=2 inputs x 0..=2 outputs (thorough 0..=3), every type, owners symbolic 33-byte keys; key lists of 0..=2 (3) symbolic keys in any order", covers=20)
 
